@@ -38,17 +38,23 @@ class ElemEval:
             return ('unk', e.id)
         if isinstance(e, (ast.List, ast.Tuple)):
             return ('lst', tuple(self.ev(x, env, depth) for x in e.elts))
-        if isinstance(e, ast.ListComp) and len(e.generators) == 1 and not e.generators[0].ifs and isinstance(e.generators[0].target, ast.Name):
-            g = e.generators[0]
-            rng = self._const_range(g.iter)
-            if rng is not None and len(rng) <= 16:
-                out = []
-                for k in rng:
-                    env2 = dict(env)
-                    env2[g.target.id] = ('num', k)
-                    out.append(self.ev(e.elt, env2, depth))
-                return ('lst', tuple(out))
-            return ('unk', src(e)[:40])
+        if isinstance(e, ast.ListComp) and 1 <= len(e.generators) <= 3 and all(not g.ifs and isinstance(g.target, ast.Name) for g in e.generators):
+            # comprehension over constant ranges (nested generators: outer loop first), each element evaluated with the counters bound
+            envs = [dict(env)]
+            for g in e.generators:
+                rng = self._const_range(g.iter)
+                if rng is None or len(rng) > 16:
+                    return ('unk', src(e)[:40])
+                nxt = []
+                for env_ in envs:
+                    for k in rng:
+                        env2 = dict(env_)
+                        env2[g.target.id] = ('num', k)
+                        nxt.append(env2)
+                envs = nxt
+                if len(envs) > 64:
+                    return ('unk', src(e)[:40])
+            return ('lst', tuple(self.ev(e.elt, env_, depth) for env_ in envs))
         if isinstance(e, ast.BinOp) and isinstance(e.op, ast.Add):
             a, b = self.ev(e.left, env, depth), self.ev(e.right, env, depth)
             if a[0] == 'lst' and b[0] == 'lst':
